@@ -188,16 +188,17 @@ Definition kst_empty : kst := {| k_isnum := None; k_min := None; k_max := None; 
 
 Definition od {A} (o : option A) (d : A) : A := match o with Some v => v | None => d end.
 
+Definition kfirst (ks : kst) (v : value) : option bool :=
+  match k_isnum ks with Some b => Some b | None => Some (is_number v) end.
+
 Definition kstep (ks : kst) (v : value) : kst :=
-  if od (k_isnum ks) true then
-    match v with
-    | VNum x => {| k_isnum := Some true;
-                   k_min := Some (py_min (od (k_min ks) PInf) x);
-                   k_max := Some (py_max (od (k_max ks) NInf) x);
-                   k_sum := Some (num_add (od (k_sum ks) (Fin 0)) x) |}
-    | VTok _ => {| k_isnum := Some false; k_min := k_min ks; k_max := k_max ks; k_sum := k_sum ks |}
-    end
-  else ks.
+  match od (kfirst ks v) false, v with
+  | true, VNum x => {| k_isnum := kfirst ks v;
+                       k_min := Some (py_min (od (k_min ks) PInf) x);
+                       k_max := Some (py_max (od (k_max ks) NInf) x);
+                       k_sum := Some (num_add (od (k_sum ks) (Fin 0)) x) |}
+  | _, _ => {| k_isnum := kfirst ks v; k_min := k_min ks; k_max := k_max ks; k_sum := k_sum ks |}
+  end.
 
 (* the values reported for metric [k] in one result, in order *)
 Definition vals_of (k : key) (r : dict) : list value :=
@@ -208,20 +209,25 @@ Proof. reflexivity. Qed.
 
 Lemma kproj_add_one_same k s v : kproj k (stats_add_one s k v) = kstep (kproj k s) v.
 Proof.
-  unfold stats_add_one, kstep, kproj. cbn [k_isnum k_min k_max k_sum].
+  unfold stats_add_one, kstep, kfirst, kproj. cbn [k_isnum k_min k_max k_sum].
   rewrite !aget_d_od.
-  destruct (od (aget key_eqb k (st_isnum s)) true) eqn:E.
-  - destruct v as [x|t]; cbn [st_isnum st_min st_max st_sum];
+  destruct (aget key_eqb k (st_isnum s)) as [b|] eqn:E.
+  - rewrite E. cbn [od]. destruct b, v as [x|t]; cbn [st_isnum st_min st_max st_sum];
+      rewrite ?(aget_aset_same key_eqb key_eqb_spec), ?E; reflexivity.
+  - rewrite (aget_aset_same key_eqb key_eqb_spec). cbn [od].
+    destruct v as [x|t]; cbn [is_number st_isnum st_min st_max st_sum];
       rewrite ?(aget_aset_same key_eqb key_eqb_spec); reflexivity.
-  - reflexivity.
 Qed.
 
 Lemma kproj_add_one_other k k' s v : k <> k' -> kproj k (stats_add_one s k' v) = kproj k s.
 Proof.
   intro Hne. unfold stats_add_one, kproj.
-  destruct (aget_d key_eqb k' (st_isnum s) true); [|reflexivity].
-  destruct v as [x|t]; cbn [st_isnum st_min st_max st_sum];
-    rewrite ?(aget_aset_other key_eqb key_eqb_spec _ _ _ _ Hne); reflexivity.
+  set (isnum' := match aget key_eqb k' (st_isnum s) with Some _ => st_isnum s | None => _ end).
+  assert (Hi : aget key_eqb k isnum' = aget key_eqb k (st_isnum s)).
+  { unfold isnum'. destruct (aget key_eqb k' (st_isnum s)); [reflexivity|].
+    apply (aget_aset_other key_eqb key_eqb_spec _ _ _ _ Hne). }
+  destruct (aget_d key_eqb k' isnum' false), v as [x|t]; cbn [st_isnum st_min st_max st_sum];
+    rewrite ?(aget_aset_other key_eqb key_eqb_spec _ _ _ _ Hne), Hi; reflexivity.
 Qed.
 
 Lemma kproj_fold k r : forall s,
@@ -243,8 +249,7 @@ Lemma count_fold r : forall s,
 Proof.
   induction r as [|[k v] r IH]; intro s; [reflexivity|].
   cbn [fold_left]. rewrite IH. unfold stats_add_one. cbn [fst snd].
-  destruct (aget_d key_eqb k (st_isnum s) true); [|reflexivity].
-  destruct v; reflexivity.
+  destruct (aget_d key_eqb k _ false), v; reflexivity.
 Qed.
 
 Lemma count_stats_add s r : st_count (stats_add s r) = S (st_count s).
@@ -278,48 +283,89 @@ Proof. unfold stats_of. rewrite fold_stats_kproj. reflexivity. Qed.
 
 (* ---- closed form of the per-metric fold --------------------------------- *)
 
-(* the values that count: the numbers before the first non-number *)
-Fixpoint numprefix (vs : list value) : list num :=
+(* all numbers among the values *)
+Fixpoint nums (vs : list value) : list num :=
   match vs with
-  | VNum x :: r => x :: numprefix r
+  | [] => []
+  | VNum x :: r => x :: nums r
+  | VTok _ :: r => nums r
+  end.
+
+(* the values that count: ALL numbers, provided the first value is a number
+   ("the type of the first value of a metric defines its type"); none otherwise *)
+Definition counted_vals (vs : list value) : list num :=
+  match vs with
+  | VNum x :: r => x :: nums r
   | _ => []
   end.
 
 Definition fold_opt (f : num -> num -> num) (np : list num) (old : option num) (dflt : num) : option num :=
   match np with [] => old | _ => Some (fold_left f np (od old dflt)) end.
 
-Lemma kstep_latched vs : forall ks, k_isnum ks = Some false -> fold_left kstep vs ks = ks.
+Lemma fold_opt_some f np a d : fold_opt f np (Some a) d = Some (fold_left f np a).
+Proof. destruct np; reflexivity. Qed.
+
+Lemma kstep_false vs : forall ks, k_isnum ks = Some false -> fold_left kstep vs ks = ks.
 Proof.
   induction vs as [|v vs IH]; intros ks H; [reflexivity|].
-  cbn [fold_left]. unfold kstep at 2. rewrite H. cbn [od]. apply IH. exact H.
+  cbn [fold_left].
+  assert (Hs : kstep ks v = ks).
+  { destruct ks as [i mn mx sm]. cbn in H. subst i. unfold kstep, kfirst. cbn. destruct v; reflexivity. }
+  rewrite Hs. apply IH. exact H.
 Qed.
 
-Lemma kfold_closed vs : forall ks, od (k_isnum ks) true = true ->
+Lemma kfold_true vs : forall ks, k_isnum ks = Some true ->
   fold_left kstep vs ks =
-  {| k_isnum := match vs with [] => k_isnum ks | _ => Some (forallb is_number vs) end;
-     k_min := fold_opt py_min (numprefix vs) (k_min ks) PInf;
-     k_max := fold_opt py_max (numprefix vs) (k_max ks) NInf;
-     k_sum := fold_opt num_add (numprefix vs) (k_sum ks) (Fin 0) |}.
+  {| k_isnum := Some true;
+     k_min := fold_opt py_min (nums vs) (k_min ks) PInf;
+     k_max := fold_opt py_max (nums vs) (k_max ks) NInf;
+     k_sum := fold_opt num_add (nums vs) (k_sum ks) (Fin 0) |}.
 Proof.
-  induction vs as [|v vs IH]; intros ks Hopen.
-  - destruct ks; reflexivity.
-  - cbn [fold_left]. unfold kstep at 2. rewrite Hopen. destruct v as [x|t].
-    + rewrite IH by reflexivity. cbn [k_isnum k_min k_max k_sum numprefix forallb is_number andb od].
-      f_equal.
-      * destruct vs; reflexivity.
-      * unfold fold_opt. destruct (numprefix vs); reflexivity.
-      * unfold fold_opt. destruct (numprefix vs); reflexivity.
-      * unfold fold_opt. destruct (numprefix vs); reflexivity.
-    + rewrite kstep_latched by reflexivity. reflexivity.
+  induction vs as [|v vs IH]; intros ks H.
+  - destruct ks as [i mn mx sm]. cbn in H. subst i. reflexivity.
+  - cbn [fold_left]. destruct v as [x|t].
+    + assert (Hs : kstep ks (VNum x) =
+                   {| k_isnum := Some true; k_min := Some (py_min (od (k_min ks) PInf) x);
+                      k_max := Some (py_max (od (k_max ks) NInf) x);
+                      k_sum := Some (num_add (od (k_sum ks) (Fin 0)) x) |}).
+      { unfold kstep, kfirst. rewrite H. reflexivity. }
+      rewrite Hs, IH by reflexivity. cbn [k_min k_max k_sum nums]. rewrite !fold_opt_some. reflexivity.
+    + assert (Hs : kstep ks (VTok t) = ks).
+      { destruct ks as [i mn mx sm]. cbn in H. subst i. reflexivity. }
+      rewrite Hs. cbn [nums]. apply IH. exact H.
 Qed.
 
 Lemma kfold_empty vs :
   fold_left kstep vs kst_empty =
-  {| k_isnum := match vs with [] => None | _ => Some (forallb is_number vs) end;
-     k_min := fold_opt py_min (numprefix vs) None PInf;
-     k_max := fold_opt py_max (numprefix vs) None NInf;
-     k_sum := fold_opt num_add (numprefix vs) None (Fin 0) |}.
-Proof. rewrite kfold_closed by reflexivity. reflexivity. Qed.
+  {| k_isnum := match vs with [] => None | v :: _ => Some (is_number v) end;
+     k_min := fold_opt py_min (counted_vals vs) None PInf;
+     k_max := fold_opt py_max (counted_vals vs) None NInf;
+     k_sum := fold_opt num_add (counted_vals vs) None (Fin 0) |}.
+Proof.
+  destruct vs as [|[x|t] vs]; [reflexivity| |].
+  - cbn [fold_left]. change (kstep kst_empty (VNum x)) with
+      {| k_isnum := Some true; k_min := Some (py_min PInf x); k_max := Some (py_max NInf x);
+         k_sum := Some (num_add (Fin 0) x) |}.
+    rewrite kfold_true by reflexivity. cbn [k_min k_max k_sum counted_vals is_number].
+    rewrite !fold_opt_some. reflexivity.
+  - cbn [fold_left]. change (kstep kst_empty (VTok t)) with
+      {| k_isnum := Some false; k_min := None; k_max := None; k_sum := None |}.
+    rewrite kstep_false by reflexivity. reflexivity.
+Qed.
+
+Lemma nums_in x vs : In x (nums vs) <-> In (VNum x) vs.
+Proof.
+  induction vs as [|[y|t] vs IH]; cbn.
+  - tauto.
+  - rewrite IH. split; intros [H|H]; [left; congruence | right; exact H | left; congruence | right; exact H].
+  - rewrite IH. split; [intro H; right; exact H | intros [H|H]; [discriminate | exact H]].
+Qed.
+
+Lemma nums_map_fin qs : nums (map (fun x => VNum (Fin x)) qs) = map Fin qs.
+Proof. induction qs as [|x qs IH]; [reflexivity|]. cbn. rewrite IH. reflexivity. Qed.
+
+Lemma counted_vals_map_fin qs : counted_vals (map (fun x => VNum (Fin x)) qs) = map Fin qs.
+Proof. destruct qs as [|x qs]; [reflexivity|]. cbn. rewrite nums_map_fin. reflexivity. Qed.
 
 (* ---- what fold_left py_min / py_max / num_add compute -------------------- *)
 
@@ -574,7 +620,7 @@ Qed.
 (* ---- c17_stats ----------------------------------------------------------- *)
 
 (* the counted values of metric [k] in a list of results *)
-Definition counted (k : key) (rs : list dict) : list num := numprefix (flat_map (vals_of k) rs).
+Definition counted (k : key) (rs : list dict) : list num := counted_vals (flat_map (vals_of k) rs).
 
 Lemma stats_interleaved_is_batch hist :
   let ts := ts_run hist in
@@ -599,6 +645,20 @@ Proof.
   pose proof (stats_of_kproj k rs) as H. rewrite kfold_empty in H. unfold kproj in H.
   injection H as _ H1 H2 H3. unfold counted. repeat split; assumption.
 Qed.
+
+(* which values are counted: ALL numbers of the metric when its first value is a number *)
+Lemma counted_first_numeric k rs x r :
+  flat_map (vals_of k) rs = VNum x :: r -> counted k rs = nums (flat_map (vals_of k) rs).
+Proof. unfold counted. intros ->. reflexivity. Qed.
+
+Lemma counted_first_non_numeric k rs t r :
+  flat_map (vals_of k) rs = VTok t :: r -> counted k rs = [].
+Proof. unfold counted. intros ->. reflexivity. Qed.
+
+Lemma counted_in_numeric k rs x0 r x :
+  flat_map (vals_of k) rs = VNum x0 :: r ->
+  (In x (counted k rs) <-> In (VNum x) (flat_map (vals_of k) rs)).
+Proof. intro H. rewrite (counted_first_numeric _ _ _ _ H). apply nums_in. Qed.
 
 (* mathematical reading: nothing counted -> no entry; otherwise the entry is the
    minimum (maximum) of the counted values that are not NaN, inf (-inf) when all are NaN *)
@@ -637,7 +697,7 @@ Lemma stats_finite_spec k rs qs : flat_map (vals_of k) rs = map (fun x => VNum (
 Proof.
   intros Hv Hne.
   assert (Hc : counted k rs = map Fin qs).
-  { unfold counted. rewrite Hv. clear. induction qs as [|x qs IH]; [reflexivity|]. cbn. rewrite IH. reflexivity. }
+  { unfold counted. rewrite Hv. apply counted_vals_map_fin. }
   pose proof (stats_min_spec k rs) as Hmin. pose proof (stats_max_spec k rs) as Hmax.
   destruct (stats_of_closed k rs) as (_ & _ & _ & Hsum).
   rewrite Hc in *.
@@ -1045,6 +1105,24 @@ Proof.
     destruct m; cbn in Hall; discriminate. }
   destruct (Hfin _ _ Hin) as [q ->]. exists q. repeat split; [exact Hin|].
   intros t' q' Hq'. specialize (Hall _ _ Hq'). destruct m; cbn in Hall; apply Qltb_false in Hall; exact Hall.
+Qed.
+
+(* over ALL numeric values handed to the loop: no number reported by any trial whose
+   first value of the metric is a number is strictly better than the reported value *)
+Lemma print_best_all_numeric hist metric m t v :
+  print_best (ts_run hist) metric m = Some (t, v) ->
+  forall t' x0 r x,
+    flat_map (vals_of metric) (of_trial t' (handed hist)) = VNum x0 :: r ->
+    In (VNum x) (flat_map (vals_of metric) (of_trial t' (handed hist))) ->
+    better m x v = false.
+Proof.
+  intros Hp t' x0 r x Hfirst Hin.
+  destruct (print_best_spec hist metric m) as [Hnone Hsome]. cbn zeta in *.
+  assert (Hne : handed hist <> []).
+  { intro E. rewrite E in Hfirst. cbn in Hfirst. discriminate. }
+  destruct (Hsome Hne) as (t1 & v1 & pre & post & Hp1 & _ & _ & _ & _ & _ & _ & Hall).
+  rewrite Hp in Hp1. injection Hp1 as <- <-.
+  apply (Hall t' x). apply (counted_in_numeric _ _ _ _ _ Hfirst). exact Hin.
 Qed.
 
 (* ---- metric_name_mode / Tuner.best_config -------------------------------- *)
